@@ -752,7 +752,7 @@ var shapeRules = []struct {
 }{
 	// x.A().F.B() is evaluated as x.A().B(): the fields between two calls are dropped
 	// (also x[i].F.B() when x is a plain variable, and x.A().C[i].F.B(): evaluated as x[i].B() / x.A().C[i].B())
-	{"wrong-value/fields-dropped-before-call", reRule(`MF+M|^XF+M|MFXF+M`), false},
+	{"wrong-value/fields-dropped-before-call", reRule(`MF+M|(^|[XM]F)XF+M`), false},
 	// a[i].M(), a[i].F.M(), a[i].M().F: "unknown identifier" (AF-22)
 	{"clean-failure/index-then-method", reRule(`X.*M`), false},
 	// r.M[k].M[k].M[k]: "unknown identifier" or empty output (AF-22)
